@@ -168,7 +168,7 @@ class TreeGen:
         if self.rng.random() < 0.5:
             k = None
         else:
-            k = int(self.rng.choice([-1, -2, -3, -4, 1, 2]))
+            k = int(self.rng.choice([-1, -2, -3, -4, 1, 2, 0]))   # an explicit shift of zero is a shift like any other
             if f.startswith("mov") and k == 0:
                 k = -2
         return E.pseudo(f, arg, k)
@@ -648,8 +648,11 @@ def render_source(spec, rng=None, level=1):
         # keep relative order of blocks of the same keyword family (declaration order inside a kind is meaningful)
         blocks = _stable_shuffle(blocks, order)
         if coin(0.3):
-            k = int(rng.integers(0, len(blocks) + 1))
-            blocks.insert(k, pick(["%{ block comment\n x = y; !equations\n%}", "#{ another\nblock comment #}", "% standalone comment line"]))
+            # one, two or three comments, also several block comments with the SAME marker around live model text
+            for _ in range(int(rng.integers(1, 4))):
+                k = int(rng.integers(0, len(blocks) + 1))
+                blocks.insert(k, pick(["%{ block comment\n x = y; !equations\n%}", "#{ another\nblock comment #}", "% standalone comment line",
+                                       "%{ second block comment %}", "#{ !parameters\n  zzz\n#}"]))
             feats.add("block-comment")
     source = "\n\n".join(blocks) + "\n"
     return {"source": source, "context": context, "features": sorted(feats)}
